@@ -236,6 +236,64 @@ def judge_standalone(pid, V, sc, lines, stats):
                     stats["web_told"] += 1
 
 
+LIFE_SQL = {"q1": "SELECT * FROM t", "q2": "SELECT f FROM t GROUP BY a", "qf": "SELECT f FROM nosuchtable"}
+
+
+def web_life_scenarios(workdir, num, seed):
+    """Behaviours of spec/Web.tla (Atomic: every request that begins an entry is executed at once)."""
+    mod = "---- MODULE WebSim ----\nEXTENDS Web\n====\n"
+    cfg = ('SPECIFICATION Spec\nCONSTANTS Atomic = TRUE Queries = {"q1", "q2", "qf"} MaxVersion = 3 TTL = 3 MaxNow = 5 MaxSteps = 14 Failing = {"qf"}\n'
+           'INVARIANT Emit\nCHECK_DEADLOCK FALSE\n')
+    r = run_tlc(mod, "WebSim", cfg, workdir, workers=1, timeout=600, extra=["-simulate", "num=%d" % num, "-depth", "15", "-seed", str(seed)])
+    out = []
+    for m in re.finditer(r'<<"ZVWEB", "(.*)">>', r.out):
+        out.append(json.loads(json.loads('"' + m.group(1) + '"')))
+    return out
+
+
+def web_mc(workdir):
+    mod = "---- MODULE WebMC ----\nEXTENDS Web\n====\n"
+    cfg = ('SPECIFICATION Spec\nCONSTANTS Atomic = FALSE Queries = {"q1", "qf"} MaxVersion = 2 TTL = 3 MaxNow = 4 MaxSteps = 8 Failing = {"qf"}\n'
+           'VIEW view\nINVARIANTS FreshWhenComputed CurOfText NoSuccessForFailing\nPROPERTY Immutable\nCHECK_DEADLOCK FALSE\n')
+    return run_tlc(mod, "WebMC", cfg, workdir, workers=8, timeout=900)
+
+
+def judge_life(pid, V, sc, lines, stats):
+    herr = [l for l in lines if l["a"] == "HarnessError"]
+    if herr or not any(l["a"] == "LifeEnd" for l in lines):
+        stats["harness_errors"] += 1
+        V.notes.append("%s: web life replay did not finish: %s" % (sc["scn"], json.dumps((herr or lines[-1:])[0])[:200]))
+        return
+    base = sc["keys"] * sc["periods"]
+    obs = {l["i"]: l for l in lines if l["a"] == "Life"}
+    for i, st in enumerate(sc["life"]):
+        o = obs.get(i)
+        if o is None or st["a"] not in ("Request", "Cached") or "skipped" in o:
+            continue
+        stats["life_steps"] += 1
+        exp_status = {"success": 200, "error": 500}[st["status"]]
+        exp_rows = None
+        if st["status"] == "success":
+            per = 1 if st.get("q", "q1") == "q1" or st["a"] == "Cached" and sc["life_q"].get(st["perm"]) == "q1" else 1
+            exp_rows = base + st["v"] * per
+        bad = None
+        if o.get("status") != exp_status:
+            bad = "status %s, the specification has %s" % (o.get("status"), exp_status)
+        elif exp_rows is not None and o.get("rows") != exp_rows:
+            bad = "%s rows, the entry the specification answers with was computed from version %d of the data (%d rows)" % (o.get("rows"), st["v"], exp_rows)
+        elif st["a"] == "Request" and o.get("permalink") and o["permalink"] != o.get("expectedPermalink"):
+            bad = "permalink %s, the specification answers with entry %d (%s)" % (o["permalink"], st["perm"], o.get("expectedPermalink"))
+        if bad:
+            stats["life_mismatch"] += 1
+            rp = common.save_replay(pid, "%s-life-%d" % (sc["scn"], i), {"standalone": sc, "kind": "web-life", "step": st, "observed": o})
+            what = ("request %s%s" % (st["q"], " (no-cache)" if st.get("nocache") else "")) if st["a"] == "Request" else "/cached/<permalink of entry %d>" % st["perm"]
+            V.notes.append("%s step %d: %s answered with %s (behaviour of spec/Web.tla; saved %s)" % (sc["scn"], i, what, bad, rp))
+            # C13 proper: a failing query answered as a success
+            if st["status"] == "error" and o.get("status") == 200:
+                V.violation(rp, "%s: HTTP %s of a query whose execution fails answered 200" % (sc["scn"], what))
+            return
+
+
 def check_C13(args):
     t0 = time.time()
     pid = "C13"
@@ -294,6 +352,25 @@ def check_C13(args):
             traces = common.run_shards(bins["zvreport"], sa, os.path.join(work, "runs"), nproc=min(8, len(sa)), timeout=2400)
             for s in sa:
                 judge_standalone(pid, V, s, traces.get(s["scn"], []), stats)
+        # the life of a query in the HTTP API's cache (spec/Web.tla), replayed with real time
+        if not args.replay:
+            wm = web_mc(os.path.join(work, "webmc"))
+            if not wm.ok:
+                raise InfraError("Web model checking failed:\n" + wm.out[-1500:])
+            cov["web_states"] = wm.distinct
+            lives = web_life_scenarios(os.path.join(work, "websim"), 6 if quick else 40, common.seed())
+            lsc = []
+            for li, h in enumerate(lives):
+                steps = [dict(x) for x in h]
+                lsc.append({"scn": "life%d" % li, "keys": 3, "periods": 1, "flushed": 3, "queries": [], "ks": [], "stops": [], "web": [],
+                            "life": steps, "lifeSQL": LIFE_SQL, "tickMs": 1500, "ttlMs": 3750,
+                            "life_q": {x["perm"]: x["q"] for x in steps if x["a"] == "Request"}})
+            ltr = common.run_shards(bins["zvreport"], [{k: v for k, v in s_.items() if k != "life_q"} for s_ in lsc], os.path.join(work, "runl"),
+                                    nproc=max(1, len(lsc)), timeout=900)
+            stats["life_steps"] = stats["life_mismatch"] = 0
+            for s_ in lsc:
+                judge_life(pid, V, s_, ltr.get(s_["scn"], []), stats)
+            cov["web_life_behaviours"] = len(lsc)
         print("[%s] standalone part done at %.1fs: %s" % (pid, time.time() - t0, stats), flush=True)
         # the rpc part: followers answer the leader over the real rpc transport and fail
         # after k rows; the failure travels in the closing message of the remote query
